@@ -56,6 +56,10 @@ EXPLANATION += (
     ' Round 6: the gene list handed to the reference-marker stage becomes positions of the reference gene table (R-PROV/gene-list, rule of C11).'
 )
 
+EXPLANATION += (
+    ' Round 8: the tree used to infer the levels not voted on is the tree as stored (R-PROV/tree-version, rule of C01).'
+)
+
 RULE_TEXT = (
     "one obligation per (file kind, reader, required dataset), per "
     "provenance relation; non-trivial when the reader requires at least "
@@ -211,6 +215,11 @@ def check(ctx):
     # chain, never left to a callee's default (sa/rules/forwarding.py)
     # the gene list a later stage hands to the reference-marker stage is
     # turned into positions of the *reference* gene table (rule of C11)
+    # a centroid is assigned to its leaf *and its ancestors*: the levels
+    # not voted on are inferred from the tree as stored in the reference
+    # file (rule of C01)
+    from .C01 import check_tree_versions
+    check_tree_versions(ctx)
     from .C11 import check_gene_list
     check_gene_list(ctx)
     from ..rules.forwarding import check_forwarding
